@@ -112,9 +112,9 @@ def _plan(prop, q, n):
         return [storm(instrumented(NORMAL), 20000 if q else 200000, n, 1, 24 if q else 40),
                 storm(instrumented(NORMAL), 15000 if q else 150000, n, 0, 24 if q else 40)]
     if prop == "C05":
-        return [sweep(instrumented(NORMAL), 6000 if q else 60000, n, D.MASK_C05)]
+        return [sweep(instrumented(NORMAL), 15000 if q else 100000, n, D.MASK_C05)]
     if prop == "C06":
-        return [sweep(instrumented(NORMAL), 1500 if q else 15000, n, D.MASK_ALL, pairs=1),
+        return [sweep(instrumented(NORMAL), 4000 if q else 30000, n, D.MASK_ALL, pairs=1),
                 storm(instrumented(NORMAL), 12500 if q else 125000, n, 1, 24 if q else 40)]
     if prop == "C07":
         return [storm(ALLOCU + CORE, 30000 if q else 300000, n, 0, 24 if q else 40),
@@ -144,7 +144,7 @@ def _plan(prop, q, n):
     if prop == "C16":
         return [storm(CORE + TWIN, 60000 if q else 600000, n, 0, 24 if q else 40)]
     if prop == "C18":
-        return [sweep(instrumented(NORMAL), 3000 if q else 30000, n, D.MASK_ALL),
+        return [sweep(instrumented(NORMAL), 8000 if q else 60000, n, D.MASK_ALL),
                 storm(instrumented(NORMAL), 10000 if q else 100000, n, 1, 24 if q else 40)]
     return []
 
